@@ -52,7 +52,7 @@ theorem cmpCore_correct (jop : Nat) (l r : Expr) (g g' : GenState) (origin : Nat
     rw [postl.owners]; exact List.mem_append_right _ hn
   -- right operand
   obtain ⟨cr, hcr2, hstr, ho2, hfr2, hs2, hrl, hrin, hrunr⟩ := cmpRight_correct l r g1 g2 rr
-    (fun hn => ⟨leavesOwned_mono hsub1 (hr hn).leaves, (hr hn).frag, (hr hn).inplace, (hr hn).narrow, (hr hn).neg32⟩) hcr
+    (fun hn => ⟨leavesOwned_mono hsub1 (hr hn).leaves, (hr hn).frag, (hr hn).narrow⟩) hcr
   have hsub2 : ∀ n, n ∈ g1.owners → n ∈ g2.owners := fun n hn => by
     rw [ho2]; exact List.mem_append_right _ hn
   -- widening
